@@ -380,7 +380,14 @@ pub fn evaluate(problem: &api::Problem, matrices: &[api::Matrix], solution: &sol
                     match cand {
                         Some((k, t)) => {
                             seen.push(k);
-                            let place = t.task.places.iter().find(|p| (a.tag.is_some() && p.tag == a.tag) || (a.tag.is_none() && loc_index(&p.location) == a.loc)).unwrap();
+                            // an activity without tag belongs to an untagged place (at that location) when the task has one
+                            let place = t
+                                .task
+                                .places
+                                .iter()
+                                .find(|p| p.tag == a.tag && (a.tag.is_some() || loc_index(&p.location) == a.loc))
+                                .or_else(|| t.task.places.iter().find(|p| (a.tag.is_some() && p.tag == a.tag) || (a.tag.is_none() && loc_index(&p.location) == a.loc)))
+                                .unwrap();
                             if t.task.places.len() > 1 {
                                 v.fact("multi_place_assigned");
                             }
